@@ -19,7 +19,8 @@ Proof.
   split; [|cbn; lia]. cbn [valid]. repeat split.
   - repeat constructor; cbv; intuition congruence.
   - repeat constructor; cbv; intuition congruence.
-  - exists [(3,1);(4,5);(2,40)]. split; [|cbn; lia]. cbn [combine].
+  - intros _. apply std_precondition_chainable; try reflexivity; try (repeat constructor; lia).
+    exists [(3,1);(4,5);(2,40)]. split; [|cbn; lia]. cbn [combine].
     eapply perm_trans; [apply perm_skip, perm_swap|apply perm_swap].
   - cbv. congruence.
 Qed.
@@ -29,7 +30,8 @@ Proof.
   cbn [valid]. repeat split.
   - repeat constructor; cbv; intuition congruence.
   - repeat constructor; cbv; intuition congruence.
-  - exists [(3,1);(1,2147483647)]. split; [cbn [combine]; apply perm_swap|cbn; lia].
+  - intros _. apply std_precondition_chainable; try reflexivity; try (repeat constructor; lia).
+    exists [(3,1);(1,2147483647)]. split; [cbn [combine]; apply perm_swap|cbn; lia].
   - cbv. congruence.
 Qed.
 Example nv_lpad : valid I32 (MLPad [5;3;2] 8) /\ inbe [4;2;1] [5;3;2].
